@@ -259,6 +259,65 @@ func structs(v any, depth int) any {
 
 var keepAll = &ojg.Options{}
 
+// goInts: the simple tree with its numbers in the other Go kinds a caller may have put there
+// (int, int32, uint8, float32 where the value fits), containers unchanged.
+func goInts(v any, n *int) any {
+	switch tv := v.(type) {
+	case map[string]any:
+		out := map[string]any{}
+		for k, e := range tv {
+			out[k] = goInts(e, n)
+		}
+		return out
+	case []any:
+		out := make([]any, len(tv))
+		for i, e := range tv {
+			out[i] = goInts(e, n)
+		}
+		return out
+	case int64:
+		*n++
+		switch {
+		case *n%3 == 0 && 0 <= tv && tv <= 255:
+			return uint8(tv)
+		case *n%3 == 1 && -1<<31 <= tv && tv < 1<<31:
+			return int32(tv)
+		}
+		return int(tv)
+	case float64:
+		if float64(float32(tv)) == tv {
+			return float32(tv)
+		}
+	}
+	return v
+}
+
+func genLeaves(v any) any {
+	switch tv := v.(type) {
+	case map[string]any:
+		out := map[string]any{}
+		for k, e := range tv {
+			out[k] = genLeaves(e)
+		}
+		return out
+	case []any:
+		out := make([]any, len(tv))
+		for i, e := range tv {
+			out[i] = genLeaves(e)
+		}
+		return out
+	case int64:
+		return gen.Int(tv)
+	case float64:
+		return gen.Float(tv)
+	case string:
+		return gen.String(tv)
+	case bool:
+		return gen.Bool(tv)
+	}
+	return v
+}
+
 func represent(data any, rep string) any {
 	switch rep {
 	case "gen":
@@ -272,6 +331,12 @@ func represent(data any, rep string) any {
 		return structs(data, 0)
 	case "wrapped":
 		return wrap(data)
+	case "goints":
+		return goInts(data, new(int))
+	case "mixed":
+		// simple containers that hold gen scalars (what a caller gets who fills a []any from
+		// gen nodes)
+		return genLeaves(data)
 	}
 	return data
 }
@@ -899,7 +964,7 @@ func TestEnumFilterOps(t *testing.T) {
 		for _, sc := range scripts {
 			for _, tail := range [][]jpx.Frag{nil, {{K: "child", Key: "x"}}} {
 				p := append(append(append(jpx.Path{}, head...), jpx.Frag{K: "filter", F: sc}), tail...)
-				for _, rep := range []string{"simple", "gen", "typed", "struct", "wrapped"} {
+				for _, rep := range []string{"simple", "gen", "typed", "struct", "wrapped", "goints", "mixed"} {
 					vrt.Eval(suite, "agree", Case{Path: p, Data: enc, Rep: rep, Max: 1 + n%3, Diff: true}, Run)
 					n++
 				}
